@@ -130,6 +130,11 @@ impl Project {
     }
 
     pub fn config_value(&self) -> Value {
+        self.config_value_with(&self.config.generate)
+    }
+
+    /// the config with another `generate` object (an earlier / other version of the same project)
+    pub fn config_value_with(&self, generate: &Value) -> Value {
         let c = &self.config;
         let glob_val = |g: &Vec<String>, as_string: bool| -> Value {
             if as_string && g.len() == 1 { json!(g[0]) } else { json!(g) }
@@ -138,7 +143,7 @@ impl Project {
         if !c.plugins.is_empty() {
             nitro.insert("plugins".into(), json!(c.plugins));
         }
-        nitro.insert("generate".into(), c.generate.clone());
+        nitro.insert("generate".into(), generate.clone());
         json!({
             "schema": glob_val(&c.schema_globs, c.schema_as_string),
             "documents": glob_val(&c.documents_globs, c.documents_as_string),
@@ -147,12 +152,15 @@ impl Project {
     }
 
     pub fn config_text(&self) -> String {
-        let v = self.config_value();
+        self.config_text_of(&self.config_value())
+    }
+
+    pub fn config_text_of(&self, v: &Value) -> String {
         if self.config.json {
-            serde_json::to_string_pretty(&v).unwrap() + "\n"
+            serde_json::to_string_pretty(v).unwrap() + "\n"
         } else {
             let mut s = String::new();
-            yaml(&v, 0, &mut s);
+            yaml(v, 0, &mut s);
             s
         }
     }
